@@ -329,7 +329,9 @@ func replyCut(x *explore.X) {
 
 // ---- A2: terse but acceptable origin replies -----------------------------------------------------------------
 
-var terseStatusLines = []string{"HTTP/1.1 200", "HTTP/1.1 200 ", "HTTP/1.1 204", "HTTP/1.1 204 ", "HTTP/1.1 304", "HTTP/1.1 304 ", "HTTP/1.0 200", "HTTP/1.1 299", "HTTP/1.1 404", "HTTP/1.1 200 \t", "HTTP/1.1 200 " + strings.Repeat("R", 5000)}
+var terseStatusLines = []string{"HTTP/1.1 200", "HTTP/1.1 200 ", "HTTP/1.1 204", "HTTP/1.1 204 ", "HTTP/1.1 304", "HTTP/1.1 304 ", "HTTP/1.0 200", "HTTP/1.1 299", "HTTP/1.1 404", "HTTP/1.1 200 \t", "HTTP/1.1 200 " + strings.Repeat("R", 5000),
+	// three digits outside the five classes (net/http accepts them; with a length they carry a body like any final response)
+	"HTTP/1.1 099 Weird", "HTTP/1.1 000 Zero", "HTTP/1.1 600 Odd", "HTTP/1.1 999 Max"}
 
 // terseReplies: the origin answers with a status line that has no reason phrase - with or without the space
 // after the code - or an unusually long one; Go's client accepts them all. Whatever the proxy makes of it,
@@ -337,7 +339,14 @@ var terseStatusLines = []string{"HTTP/1.1 200", "HTTP/1.1 200 ", "HTTP/1.1 204",
 func terseReplies(x *explore.X) {
 	kind := []string{"GET", "HEAD", "GET-via-upstream", "GET-inside-MITM", "GET-handler-mode"}[x.ChooseFree("kind", 5)]
 	line := terseStatusLines[x.ChooseFree("status-line", len(terseStatusLines))]
-	withLength := x.ChooseFree("content-length-0", 2) == 1
+	length := x.ChooseFree("content-length", 3) // 0 none (delimited by close), 1 Content-Length: 0, 2 Content-Length: 5 and a body
+	withLength := length > 0
+	var code int
+	fmt.Sscanf(strings.SplitN(line, " ", 3)[1], "%d", &code)
+	if length == 2 && (kind == "HEAD" || code == 204 || code == 304) {
+		x.Outcome("inadmissible") // these replies have no body
+		return
+	}
 	e := setup(x, kind, nil, nil)
 	if e == nil {
 		return
@@ -358,26 +367,29 @@ func terseReplies(x *explore.X) {
 	}
 	reply := line + "\r\nX-O: 1\r\n"
 	if withLength {
-		reply += "Content-Length: 0\r\n"
+		reply += fmt.Sprintf("Content-Length: %d\r\n", []int{0, 0, 5}[length])
 	}
 	reply += "\r\n"
+	if length == 2 {
+		reply += "hello"
+	}
 	oc := nh.Conns[conns[0]]
 	oc.Send([]byte(reply))
 	if !withLength {
 		oc.Close() // a 200 without a length is delimited by the connection
 	}
 	world.Settle(5 * time.Second)
-	what := fmt.Sprintf("%s, origin reply %q (Content-Length: 0: %v)", kind, world.Clip([]byte(line)), withLength)
+	what := fmt.Sprintf("%s, origin reply %q (Content-Length: %s)", kind, world.Clip([]byte(line)), []string{"none", "0", "5 + body"}[length])
 	x.Check()
 	stream := e.cl.Recv()
 	rs := httpwire.ParseResponses(stream, e.methods, e.clientEOF())
 	if rs.State == "syntax" || len(rs.Msgs) != 1 {
 		x.Failf("terse-reply/no-complete-response", "%s: the client holds %d complete responses (state %q, %s): %q", what, len(rs.Msgs), rs.State, rs.Err, world.Clip(stream))
 	} else {
-		var code int
-		fmt.Sscanf(strings.SplitN(line, " ", 3)[1], "%d", &code)
 		if got := rs.Msgs[0].Status; got != code && got/100 != 5 {
 			x.Failf("terse-reply/status", "%s: the client received status %d", what, got)
+		} else if got == code && length == 2 && string(rs.Msgs[0].Body) != "hello" {
+			x.Failf("terse-reply/body", "%s: the client received the origin's status with body %q, the origin sent \"hello\"", what, world.Clip(rs.Msgs[0].Body))
 		}
 	}
 	oc.Close() // (a kept-alive connection to the scripted hop would swallow the probe)
